@@ -12,7 +12,7 @@
 From Coq Require Import List Bool Arith QArith Lia.
 From DV Require Import Common.Res Common.Str Ext.Types Ext.Classes Ext.Seq Ext.Model Ext.Spec Ext.TableFacts
      Ext.ValidFacts Ext.ProofsValidBase Ext.ProofsSimplifySeq Ext.ProofsSimplifyLayout Ext.ProofsSimplifyCanon
-     Ext.ProofsCanonSubset Ext.ProofsMergeSeq Ext.ProofsMergeDen Ext.ProofsMergeStep Ext.ProofsMergeFrame.
+     Ext.ProofsCanonSubset Ext.ProofsMergeSeq Ext.ProofsMergeDen Ext.ProofsMergeStep Ext.ProofsMergeFrame Ext.ProofsMergeKey.
 Import ListNotations.
 Local Open Scope nat_scope.
 
@@ -351,5 +351,357 @@ Section WithV.
       + exact Hmono.
       + intros [[s t] v]. rewrite vx_d0, vx_d'0. cbn [in_dims]. intros [Hs [Ht Hv]]. split; [lia|].
         unfold ProofsSimplifyLayout.fden. cbn [cidx]. apply app_nth1. lia.
+  Qed.
+
+  (** * One [_insert] along the slice, time or vector axis, inside [from_sequence] *)
+
+  (** the class that [_insert] extends in place along an axis *)
+  Definition axcls (ax : axis) : cls := match ax with AxS => TSlices | AxT => TSamples | AxV => VSamples end.
+
+  (** what is needed of the state BEFORE an insert: well formed, and canonical if it sits in the axis class *)
+  Definition pre_ax (ax : axis) (h : hdr) (s : kst V) : Prop :=
+    good_k h s /\
+    forall lv, s = Some (axcls ax, lv) -> canon_class (shape h) (dims h) (fden (dims h) (axcls ax) lv) (axcls ax).
+
+  Lemma inv_post_pre ax h s : inv_post h s -> pre_ax ax h s.
+  Proof.
+    destruct s as [[c vs]|]; [|intros _; split; [exact I | intros lv E; discriminate E]].
+    intros [Hg [->|Hc]]; (split; [exact Hg|]); intros lv E; injection E as E1 E2; subst.
+    - destruct ax; discriminate E1.
+    - exact Hc.
+  Qed.
+
+  Lemma set_nth_length {A} i (v : A) l l' : set_nth i v l = Some l' -> length l' = length l.
+  Proof.
+    revert i l'. induction l as [|a r IH]; intros i l' H; [destruct i; discriminate|].
+    destruct i as [|i]; cbn [set_nth] in H; [injection H as <-; reflexivity|].
+    destruct (set_nth i v r) as [r'|] eqn:E; [|discriminate]. injection H as <-. cbn [length]. f_equal. eapply IH; eauto.
+  Qed.
+
+  Lemma set_nth_nth_other {A} i j (v d : A) l l' : set_nth i v l = Some l' -> i <> j -> nth j l' d = nth j l d.
+  Proof.
+    revert i j l'. induction l as [|a r IH]; intros i j l' H Hne; [destruct i; discriminate|].
+    destruct i as [|i]; cbn [set_nth] in H.
+    - injection H as <-. destruct j; [congruence | reflexivity].
+    - destruct (set_nth i v r) as [r'|] eqn:E; [|discriminate]. injection H as <-.
+      destruct j; [reflexivity|]. cbn [nth]. eapply IH; eauto.
+  Qed.
+
+  (** changing an extent other than a 5-D time extent does not change which classes are admitted *)
+  Lemma class_ok_with_dim h dim m m' c :
+    (dim = 3 -> ndim h <> 5) ->
+    class_ok (shape (with_dim h dim m)) c = class_ok (shape (with_dim h dim m')) c.
+  Proof.
+    intros Hd. unfold with_dim.
+    destruct (set_nth dim m (shape h)) as [sh1|] eqn:E1; destruct (set_nth dim m' (shape h)) as [sh2|] eqn:E2;
+      cbn [with_shape shape]; try reflexivity.
+    - unfold class_ok. rewrite (set_nth_length _ _ _ _ E1), (set_nth_length _ _ _ _ E2).
+      destruct (Nat.eq_dec dim 3) as [->|Hne].
+      + specialize (Hd eq_refl). unfold ndim in Hd.
+        destruct (length (shape h)) as [|[|[|[|[|[|n]]]]]]; try reflexivity. congruence.
+      + rewrite (set_nth_nth_other _ _ _ 0 _ _ E1 Hne), (set_nth_nth_other _ _ _ 0 _ _ E2 Hne). reflexivity.
+    - exfalso. clear -E1 E2. revert dim sh1 E1 E2. induction (shape h) as [|a r IH]; intros [|i] sh1 E1 E2; cbn [set_nth] in *; try discriminate.
+      destruct (set_nth i m r) eqn:X1; [|discriminate]. destruct (set_nth i m' r) eqn:X2; [discriminate|]. eapply IH; eauto.
+    - exfalso. clear -E1 E2. revert dim sh2 E1 E2. induction (shape h) as [|a r IH]; intros [|i] sh2 E1 E2; cbn [set_nth] in *; try discriminate.
+      destruct (set_nth i m' r) eqn:X1; [|discriminate]. destruct (set_nth i m r) eqn:X2; [discriminate|]. eapply IH; eauto.
+  Qed.
+
+  Lemma ndim_with_dim h dim m : ndim (with_dim h dim m) = ndim h.
+  Proof.
+    unfold with_dim, ndim. destruct (set_nth dim m (shape h)) as [sh|] eqn:E; [|reflexivity].
+    cbn [with_shape shape]. eapply set_nth_length; eauto.
+  Qed.
+
+  Theorem insert_k_inv hfull ish dim N ho j ax ks ko ks' :
+    frame hfull ish dim N -> inp hfull ish ho -> 1 <= j ->
+    axis_of (sdim hfull) dim = Some ax -> (3 <= dim -> sdim hfull <> None) ->
+    pre_ax ax (with_dim hfull dim j) ks -> good_k ho ko -> nondeg_k ho ko ->
+    insert_k veqb vnone (with_dim hfull dim j) ho dim ks ko = Ok ks' ->
+    inv_post (with_dim hfull dim (S j)) ks'.
+  Proof.
+    intros F Hin Hj Hax Hn3 [Hgs Hpre] Hgo Hndo H.
+    destruct (insert_k_den veqb vnone veqb_spec hfull ish dim N ho j ax ks ko F Hin Hj Hax Hn3 Hgs Hgo)
+      as [ks'' [E [G1 [_ G3]]]].
+    rewrite H in E. injection E as <-.
+    destruct (frame_generic hfull ish dim N ho j F Hin Hj) as [Hho [Hhs [Hsd [Haff [Hmono Hbase]]]]].
+    pose proof (axis_of_cases _ _ _ (fr_sdim _ _ _ _ F) Hax) as Hcase.
+    pose proof (use_slices_with_dim hfull dim j ho Hsd Haff) as Hus.
+    set (hs := with_dim hfull dim j) in *. set (hs' := with_dim hfull dim (S j)) in *.
+    set (ko2 := drop_k (use_slices hfull ho) ko) in *.
+    assert (Hgo2 : good_k ho ko2) by (apply drop_k_good; exact Hgo).
+    assert (Hndo2 : nondeg_k ho ko2) by (apply drop_k_nondeg; exact Hndo).
+    unfold insert_k in H. rewrite Hus in H.
+    rewrite (visible_good _ _ Hgo), (visible_good _ _ Hgs) in H.
+    change (match ko with Some (c, vs) => if is_slices c && negb (use_slices hfull ho) then None else Some (c, vs)
+                     | None => None end) with ko2 in H.
+    assert (K : (bind (reclassify_k vnone hs ks (oc_of ko2)) (fun ks1 =>
+                   if odim_is (sdim hs) dim then insert_slice_k veqb vnone hs ho ks1 ko2
+                   else if dim <? 3 then insert_non_slice_k veqb vnone hs ho ks1 ko2
+                   else if dim =? 3 then insert_sample_k veqb vnone hs ho ks1 ko2 BTime
+                   else if dim =? 4 then insert_sample_k veqb vnone hs ho ks1 ko2 BVector
+                   else Ok ks1)) = Ok ks' -> inv_post hs' ks').
+    { clear H. intros H. apply bind_ok in H as [ks1 [Hr H]]. rewrite Hsd in H.
+      destruct ax.
+      - (* slice axis *)
+        destruct Hcase as [Hs Hd3]. rewrite Hs in H. unfold odim_is in H. rewrite Nat.eqb_refl in H.
+        pose proof (frame_slice_ctx hfull ish dim N ho j F Hin Hs Hj) as X. fold hs hs' in X.
+        apply (slice_step hs hs' ho j _ _ ks ko2 ks1 ks' X Hgs Hgo2 Hndo2 Hpre Hr H G1).
+        intros s t v Hs' Ht Hv.
+        rewrite (G3 (s, t, v)) by (rewrite (sx_d' _ _ _ _ _ _ X); cbn [in_dims]; lia). reflexivity.
+      - (* time axis *)
+        destruct Hcase as [-> Ho]. rewrite Ho in H. change (3 <? 3) with false in H. change (3 =? 3) with true in H. cbv iota in H.
+        assert (Hs : sdim hfull <> None) by (apply Hn3; lia).
+        destruct (frame_time_ctx hfull ish N ho j F Hin Hs Hj) as [X Hnd]. fold hs hs' in X, Hnd.
+        destruct Hnd as [[H4 [HV [H1 [H2 H3]]]]|[H5 H5o]].
+        + rewrite HV in X.
+          apply (time4_step hs hs' ho j _ ks ko2 ks1 ks' X H4 H1); try assumption.
+          * intros x Hx. unfold hs, hs' in *. rewrite (class_ok_with_dim hfull 3 j (S j)); [exact Hx|].
+            intros _. rewrite <- (ndim_with_dim hfull 3 j). lia.
+          * intros s t v Hs' Ht Hv.
+            rewrite (G3 (s, t, v)) by (rewrite (tx_d' _ _ _ _ _ _ X); cbn [in_dims]; lia). reflexivity.
+        + assert (Hoko : class_ok (shape hs) (oc_of ko2) = true).
+          { destruct ko2 as [[c vs]|]; cbn [oc_of]; [apply Hmono; apply Hgo2 | apply class_ok_const; exact Hhs]. }
+          assert (Hocsl : is_slices (oc_of ko2) = true -> sdim hs <> None) by (intros _; rewrite Hsd; exact Hs).
+          destruct (reclassify_k_den vnone hs ks _ ks1 Hhs Hgs Hoko Hocsl Hr) as [Hg1 [_ [c1 [vs1 [E1 _]]]]].
+          apply (time5_step hs hs' ho ks1 ko2 ks' c1 vs1 H5 E1 Hg1 H G1).
+      - (* vector axis *)
+        destruct Hcase as [-> Ho]. rewrite Ho in H. change (4 <? 3) with false in H. change (4 =? 3) with false in H.
+        change (4 =? 4) with true in H. cbv iota in H.
+        assert (Hs : sdim hfull <> None) by (apply Hn3; lia).
+        pose proof (frame_vec_ctx hfull ish N ho j F Hin Hs Hj) as X. fold hs hs' in X.
+        apply (vec_step hs hs' ho j _ _ ks ko2 ks1 ks' X); try assumption.
+        + intros x Hx. unfold hs, hs' in *. rewrite (class_ok_with_dim hfull 4 j (S j)); [exact Hx | intros Z; discriminate Z].
+        + intros s t v Hs' Ht Hv.
+          rewrite (G3 (s, t, v)) by (rewrite (vx_d' _ _ _ _ _ _ X); cbn [in_dims]; lia). reflexivity. }
+    destruct ko2 as [[oc ovs]|] eqn:Eko.
+    - apply K. exact H.
+    - destruct ks as [[c vs]|].
+      + apply K. exact H.
+      + injection H as <-. exact I.
+  Qed.
+
+  (** * Iterating the inserts *)
+  Lemma insert_all_inv hfull ish dim N ax (others : list (hdr * kst V)) :
+    frame hfull ish dim N -> axis_of (sdim hfull) dim = Some ax -> (3 <= dim -> sdim hfull <> None) ->
+    Forall (fun i => inp hfull ish (fst i) /\ good_k (fst i) (snd i) /\ nondeg_k (fst i) (snd i)) others ->
+    forall j ks ks', 1 <= j -> others <> [] -> pre_ax ax (with_dim hfull dim j) ks ->
+      insert_all_k veqb vnone hfull dim j others ks = Ok ks' ->
+      inv_post (with_dim hfull dim (j + length others)) ks'.
+  Proof.
+    intros F Hax Hn3 Hall. induction Hall as [|[ho ko] rest [Hin [Hgo Hndo]] Hrest IH]; intros j ks ks' Hj Hne Hpre H; [congruence|].
+    cbn [insert_all_k] in H. apply bind_ok in H as [k1 [H1 H]]. cbn [fst snd] in *.
+    pose proof (insert_k_inv hfull ish dim N ho j ax ks ko k1 F Hin Hj Hax Hn3 Hpre Hgo Hndo H1) as Hpost.
+    destruct rest as [|i rest'].
+    - cbn [insert_all_k] in H. injection H as <-. cbn [length]. replace (j + 1) with (S j) by lia. exact Hpost.
+    - cbn [length] in *. replace (j + S (S (length rest'))) with (S j + S (length rest')) by lia.
+      apply (IH (S j) k1 ks'); [lia | discriminate | apply inv_post_pre; exact Hpost | exact H].
+  Qed.
+
+  (** the first input never sits in the axis class (that class has one value per key there) *)
+  Lemma init_pre hfull ish dim N ax h0 k0 :
+    frame hfull ish dim N -> axis_of (sdim hfull) dim = Some ax -> (3 <= dim -> sdim hfull <> None) ->
+    inp hfull ish h0 -> good_k h0 k0 -> nondeg_k h0 k0 ->
+    pre_ax ax (with_dim hfull dim 1) (init_k hfull h0 k0).
+  Proof.
+    intros F Hax Hn3 Hin Hg Hnd.
+    destruct (frame_dims hfull ish dim N ax F Hax Hn3) as [Hc1 [Hdin Hdm]].
+    assert (Hd1 : dims (with_dim hfull dim 1) = dims h0).
+    { rewrite (Hdm 1 (le_n 1)), (Hdin h0 Hin), <- Hc1. apply set_coord_coord. }
+    split; [apply (init_k_good vnone hfull ish dim N h0 k0 F Hin Hg Hd1)|].
+    intros lv E. exfalso. rewrite (init_k_drop hfull h0 k0 Hg) in E.
+    assert (Ek : k0 = Some (axcls ax, lv)).
+    { destruct k0 as [[c vs]|]; cbn [drop_k] in E; [|discriminate]. destruct (_ && _); [discriminate | exact E]. }
+    subst k0. destruct Hg as [Hok [_ _]]. cbn [nondeg_k] in Hnd.
+    rewrite (Hdin h0 Hin) in Hnd. unfold d_in in *. cbn [coord] in Hc1.
+    pose proof (axis_of_cases _ _ _ (fr_sdim _ _ _ _ F) Hax) as Hcase.
+    destruct ax; cbn [axcls coord] in *.
+    - apply Hnd; [discriminate|]. cbn [mult_spec]. exact Hc1.
+    - destruct Hcase as [-> _]. destruct Hin as [Hsh _]. rewrite Hsh in Hok.
+      pose proof (fr_nd _ _ _ _ F) as Hl. unfold class_ok in Hok. cbn [base_of] in Hok.
+      destruct ish as [|a [|b [|c [|t [|v [|x r]]]]]]; cbn [length] in Hl, Hok; try lia; try discriminate Hok.
+      + apply Hnd; [discriminate|]. cbn [mult_spec nth] in *. lia.
+      + cbn [nth] in Hc1, Hok. subst t. discriminate Hok.
+    - apply Hnd; [discriminate|]. cbn [mult_spec]. exact Hc1.
+  Qed.
+
+  (** * Non-slice spatial axis (canonical inputs) *)
+  Notation kcanon := (kcanon vnone).
+
+  Lemma canon_class_shape_ext sh sh' d (f : pos -> V) c :
+    (forall x, class_ok sh x = class_ok sh' x) -> canon_class sh d f c -> canon_class sh' d f c.
+  Proof.
+    intros E [H1 [H2 H3]]. split; [rewrite <- E; exact H1|]. split; [exact H2|].
+    intros c' Hc'. apply H3. rewrite E. exact Hc'.
+  Qed.
+
+  Lemma kcanon_transfer h h' (s : kst V) :
+    dims h' = dims h -> sdim h' = sdim h -> (forall c, class_ok (shape h) c = class_ok (shape h') c) ->
+    kcanon h s -> kcanon h' s.
+  Proof.
+    intros Hd Hs Hc. destruct s as [[c vs]|]; [|trivial]. intros [[H1 [H2 H3]] H4]. split.
+    - split; [rewrite <- Hc; exact H1|]. split; [rewrite Hs; exact H2 | rewrite Hd; exact H3].
+    - rewrite Hd. eapply canon_class_shape_ext; [exact Hc | exact H4].
+  Qed.
+
+  Lemma kcanon_good h s : kcanon h s -> good_k h s.
+  Proof. destruct s as [[c vs]|]; [intros [H _]; exact H | trivial]. Qed.
+
+  Lemma odim_is_false sd dim : sd <> Some dim -> odim_is sd dim = false.
+  Proof.
+    intros H. destruct sd as [d|]; [|reflexivity]. cbn [odim_is]. apply Nat.eqb_neq. intros ->. apply H. reflexivity.
+  Qed.
+
+  Lemma nonslice_step hfull ish dim N ho j ks ko ks' :
+    frame hfull ish dim N -> inp hfull ish ho -> 1 <= j -> dim < 3 -> sdim hfull <> Some dim ->
+    kcanon (with_dim hfull dim j) ks -> kcanon ho ko ->
+    insert_k veqb vnone (with_dim hfull dim j) ho dim ks ko = Ok ks' ->
+    kcanon (with_dim hfull dim (S j)) ks'.
+  Proof.
+    intros F Hin Hj Hd3 Hns Hks Hko H.
+    destruct (frame_generic hfull ish dim N ho j F Hin Hj) as [Hho [Hhs [Hsd [Haff [Hmono Hbase]]]]].
+    destruct (frame_generic hfull ish dim N ho (S j) F Hin ltac:(lia)) as [_ [Hhs' [Hsd' _]]].
+    destruct (frame_nonslice hfull ish dim N ho j F Hin Hd3 Hns Hj) as [Hdj Hokj].
+    destruct (frame_nonslice hfull ish dim N ho (S j) F Hin Hd3 Hns ltac:(lia)) as [Hdj' Hokj'].
+    pose proof (use_slices_with_dim hfull dim j ho Hsd Haff) as Hus.
+    set (hs := with_dim hfull dim j) in *. set (hs' := with_dim hfull dim (S j)) in *.
+    pose proof (kcanon_good _ _ Hks) as Hgs. pose proof (kcanon_good _ _ Hko) as Hgo.
+    set (ko2 := drop_k (use_slices hfull ho) ko) in *.
+    assert (Hko2 : kcanon ho ko2).
+    { unfold ko2. destruct ko as [[c vs]|]; cbn [drop_k]; [|exact I]. destruct (_ && _); [exact I | exact Hko]. }
+    pose proof (kcanon_good _ _ Hko2) as Hgo2.
+    assert (Hsdo : sdim ho = sdim hs) by (destruct Hin as [_ Hx]; rewrite Hx, Hsd; reflexivity).
+    assert (Htr : forall s, kcanon hs s -> kcanon hs' s).
+    { intros s. apply kcanon_transfer; [congruence | congruence | intros c; rewrite <- Hokj, <- Hokj'; reflexivity]. }
+    unfold insert_k in H. rewrite Hus in H.
+    rewrite (visible_good _ _ Hgo), (visible_good _ _ Hgs) in H.
+    change (match ko with Some (c, vs) => if is_slices c && negb (use_slices hfull ho) then None else Some (c, vs)
+                     | None => None end) with ko2 in H.
+    assert (K : (bind (reclassify_k vnone hs ks (oc_of ko2)) (fun ks1 =>
+                   if odim_is (sdim hs) dim then insert_slice_k veqb vnone hs ho ks1 ko2
+                   else if dim <? 3 then insert_non_slice_k veqb vnone hs ho ks1 ko2
+                   else if dim =? 3 then insert_sample_k veqb vnone hs ho ks1 ko2 BTime
+                   else if dim =? 4 then insert_sample_k veqb vnone hs ho ks1 ko2 BVector
+                   else Ok ks1)) = Ok ks' -> kcanon hs' ks').
+    { clear H. intros H. apply bind_ok in H as [ks1 [Hr H]].
+      rewrite Hsd, (odim_is_false _ _ Hns) in H. replace (dim <? 3) with true in H by (symmetry; apply Nat.ltb_lt; exact Hd3).
+      assert (Hoko : class_ok (shape hs) (oc_of ko2) = true).
+      { destruct ko2 as [[c vs]|]; cbn [oc_of]; [apply Hmono; apply Hgo2 | apply class_ok_const; exact Hhs]. }
+      assert (Hocsl : is_slices (oc_of ko2) = true -> sdim hs <> None).
+      { destruct ko2 as [[c vs]|]; cbn [oc_of]; [|discriminate]. destruct Hgo2 as [_ [Hx _]]. rewrite <- Hsdo. exact Hx. }
+      destruct (reclassify_k_den vnone hs ks _ ks1 Hhs Hgs Hoko Hocsl Hr) as [Hg1 [Hd1 [c1 [vs1 [-> [Hw1 _]]]]]].
+      assert (Hw : widens (kst_class ko2) c1).
+      { destruct ko2 as [[c vs]|]; [exact Hw1 | right; apply allowed_from_none]. }
+      destruct (insert_non_slice_k_den veqb vnone veqb_spec hs ho c1 vs1 ko2 Hhs Hho (eq_sym Hdj) Hsdo Hokj Hg1 Hgo2 Hw)
+        as [[Hden E]|[_ E]]; rewrite E in H; injection H as <-; [|exact I].
+      apply Htr.
+      (* both sides denote the same function, so they sit in the same (canonical) class *)
+      assert (Hfs : forall p, in_dims (dims hs) p -> den_k hs ks p = den_k ho ko2 p).
+      { intros p Hp. rewrite <- (Hd1 p Hp). apply Hden. exact Hp. }
+      rewrite (reclassify_k_eq vnone hs ks _ Hgs) in Hr.
+      destruct ks as [[c vs]|]; cbn [kst_class] in Hr.
+      - destruct Hks as [Hok Hc].
+        assert (Ec : c = oc_of ko2).
+        { destruct ko2 as [[co vo]|]; cbn [oc_of].
+          - destruct Hko2 as [Hoko2 Hco]. apply (canon_class_unique (shape hs) (dims hs) (fden (dims hs) c vs)); [exact Hc|].
+            rewrite <- Hdj in Hco. eapply canon_class_shape_ext; [exact Hokj|].
+            eapply canon_class_ext; [|exact Hco]. intros p Hp.
+            transitivity (den_k ho (Some (co, vo)) p);
+              [rewrite Hdj; apply fden_den_k; apply Hoko2 | rewrite <- Hfs by exact Hp; symmetry; apply fden_den_k; apply Hok].
+          - destruct Hc as [_ [_ Hmin]].
+            assert (Hr0 : representable (dims hs) GConst (fden (dims hs) c vs)).
+            { intros p q Hp Hq _. rewrite !(fden_den_k hs c vs) by apply Hok. rewrite !Hfs by assumption. reflexivity. }
+            specialize (Hmin GConst (class_ok_const _ Hhs) Hr0). apply pref_rank_inj. cbn [pref_rank] in *. lia. }
+        unfold geb in Hr. rewrite <- Ec, cls_eqb_refl in Hr. cbn [orb] in Hr. injection Hr as <- <-.
+        split; assumption.
+      - (* the key was absent so far: kept only if the other side is None everywhere, i.e. a constant *)
+        destruct ko2 as [[co vo]|] eqn:Eko; cbn [oc_of] in *.
+        + assert (c1 = co).
+          { unfold change_class_k in Hr. cbn [visible kst_class ocls_eqb] in Hr.
+            apply bind_ok in Hr as [vals [_ Hp]]. unfold put in Hp. destruct (has_base _ _); [|discriminate].
+            injection Hp as <- _. reflexivity. }
+          subst c1. destruct Hko2 as [Hoko2 [_ [_ Hmin]]].
+          assert (Hr0 : representable (dims ho) GConst (fden (dims ho) co vo)).
+          { intros p q Hp Hq _. rewrite !(fden_den_k ho co vo) by apply Hoko2. rewrite <- Hdj in Hp, Hq.
+            rewrite <- !Hfs by assumption. reflexivity. }
+          specialize (Hmin GConst (class_ok_const _ Hho) Hr0).
+          assert (co = GConst) by (apply pref_rank_inj; cbn [pref_rank] in *; lia). subst co.
+          split; [exact Hg1 | apply canon_gconst; apply Hg1].
+        + split; [exact Hg1|]. (* both absent cannot reach here, but the statement is harmless *)
+          unfold change_class_k in Hr. cbn [visible kst_class ocls_eqb] in Hr.
+          apply bind_ok in Hr as [vals [_ Hp]]. unfold put in Hp. destruct (has_base _ _); [|discriminate].
+          injection Hp as <- _. apply canon_gconst. apply Hg1. }
+    destruct ko2 as [[oc ovs]|] eqn:Eko.
+    - apply K. exact H.
+    - destruct ks as [[c vs]|].
+      + apply K. exact H.
+      + injection H as <-. exact I.
+  Qed.
+
+  Lemma insert_all_nonslice hfull ish dim N (others : list (hdr * kst V)) :
+    frame hfull ish dim N -> dim < 3 -> sdim hfull <> Some dim ->
+    Forall (fun i => inp hfull ish (fst i) /\ kcanon (fst i) (snd i)) others ->
+    forall j ks ks', 1 <= j -> kcanon (with_dim hfull dim j) ks ->
+      insert_all_k veqb vnone hfull dim j others ks = Ok ks' ->
+      kcanon (with_dim hfull dim (j + length others)) ks'.
+  Proof.
+    intros F Hd3 Hns Hall. induction Hall as [|[ho ko] rest [Hin Hko] Hrest IH]; intros j ks ks' Hj Hks H.
+    - cbn [insert_all_k] in H. injection H as <-. cbn [length]. rewrite Nat.add_0_r. exact Hks.
+    - cbn [insert_all_k] in H. apply bind_ok in H as [k1 [H1 H]]. cbn [fst snd length] in *.
+      replace (j + S (length rest)) with (S j + length rest) by lia.
+      apply (IH (S j) k1 ks'); [lia | | exact H].
+      apply (nonslice_step hfull ish dim N ho j ks ko k1 F Hin Hj Hd3 Hns Hks Hko H1).
+  Qed.
+
+  (** * The whole merge for one key *)
+  Lemma final_pass hfull ks r :
+    hdr_wf hfull -> hdr_tight hfull -> inv_post hfull ks ->
+    (match visible hfull ks with
+     | Some (GSlices, _) => simplify_k veqb vnone hfull ks
+     | _ => Ok ks
+     end) = Ok r -> kcanon hfull r.
+  Proof.
+    intros Hw Ht Hinv H. destruct ks as [[c vs]|]; [|cbn [visible] in H; injection H as <-; exact I].
+    destruct Hinv as [Hg Hc]. rewrite (visible_good _ _ Hg) in H.
+    destruct (cls_eqb_spec c GSlices) as [->|Hne].
+    - apply (finish_simplify veqb vnone veqb_spec hfull GSlices vs r Hw Ht Hg); [intros Z; discriminate Z | exact H].
+    - assert (r = Some (c, vs)) by (destruct c; try congruence; injection H as <-; reflexivity). subst r.
+      destruct Hc as [->|Hc]; [congruence|]. split; assumption.
+  Qed.
+
+  Theorem merge_k_canon_axis hfull ish dim ax h0 k0 (rest : list (hdr * kst V)) r :
+    frame hfull ish dim (S (length rest)) -> hdr_wf hfull ->
+    axis_of (sdim hfull) dim = Some ax -> (3 <= dim -> sdim hfull <> None) ->
+    Forall (fun i => inp hfull ish (fst i) /\ good_k (fst i) (snd i) /\ nondeg_k (fst i) (snd i)) ((h0, k0) :: rest) ->
+    merge_k veqb vnone hfull dim ((h0, k0) :: rest) = Ok r -> kcanon hfull r.
+  Proof.
+    intros F Hw Hax Hn3 Hall H. inversion Hall as [|x l [Hin0 [Hg0 Hnd0]] Hrest]; subst. cbn [fst snd] in *.
+    assert (Ht : hdr_tight hfull) by (intros c; apply (fr_bases _ _ _ _ F)).
+    cbn [merge_k] in H. apply bind_ok in H as [ks [Hins H]].
+    assert (Hne : rest <> []) by (pose proof (fr_N _ _ _ _ F); destruct rest; [cbn [length] in *; lia | discriminate]).
+    pose proof (init_pre hfull ish dim _ ax h0 k0 F Hax Hn3 Hin0 Hg0 Hnd0) as Hpre.
+    pose proof (insert_all_inv hfull ish dim _ ax rest F Hax Hn3 Hrest 1 _ ks (le_n 1) Hne Hpre Hins) as Hpost.
+    cbn [plus] in Hpost. rewrite (with_dim_full hfull ish dim _ F) in Hpost.
+    apply (final_pass hfull ks r Hw Ht Hpost H).
+  Qed.
+
+  Theorem merge_k_canon_nonslice hfull ish dim h0 k0 (rest : list (hdr * kst V)) r :
+    frame hfull ish dim (S (length rest)) -> hdr_wf hfull -> dim < 3 -> sdim hfull <> Some dim ->
+    Forall (fun i => inp hfull ish (fst i) /\ kcanon (fst i) (snd i)) ((h0, k0) :: rest) ->
+    merge_k veqb vnone hfull dim ((h0, k0) :: rest) = Ok r -> kcanon hfull r.
+  Proof.
+    intros F Hw Hd3 Hns Hall H. inversion Hall as [|x l [Hin0 Hk0] Hrest]; subst. cbn [fst snd] in *.
+    assert (Ht : hdr_tight hfull) by (intros c; apply (fr_bases _ _ _ _ F)).
+    cbn [merge_k] in H. apply bind_ok in H as [ks [Hins H]].
+    pose proof (kcanon_good _ _ Hk0) as Hg0.
+    assert (Hinit : kcanon (with_dim hfull dim 1) (init_k hfull h0 k0)).
+    { rewrite (init_k_drop hfull h0 k0 Hg0).
+      destruct (frame_generic hfull ish dim _ h0 1 F Hin0 (le_n 1)) as [_ [_ [Hsd1 _]]].
+      destruct (frame_nonslice hfull ish dim _ h0 1 F Hin0 Hd3 Hns (le_n 1)) as [Hd1 Hok1].
+      apply (kcanon_transfer h0); [exact Hd1 | destruct Hin0 as [_ Hx]; congruence | exact Hok1 |].
+      destruct k0 as [[c vs]|]; cbn [drop_k]; [|exact I]. destruct (_ && _); [exact I | exact Hk0]. }
+    pose proof (insert_all_nonslice hfull ish dim _ rest F Hd3 Hns Hrest 1 _ ks (le_n 1) Hinit Hins) as Hpost.
+    cbn [plus] in Hpost. rewrite (with_dim_full hfull ish dim _ F) in Hpost.
+    apply (final_pass hfull ks r Hw Ht); [|exact H].
+    destruct ks as [[c vs]|]; [|exact I]. destruct Hpost as [Hg Hc]. split; [exact Hg | right; exact Hc].
   Qed.
 End WithV.
